@@ -122,12 +122,18 @@ RevealRefuses(s, S) == \/ \A x \in RevealSel(s, S) : IsZeroTok(s.val[x])        
                        \/ \E x \in RevealSel(s, S) : IsNaNTok(s.val[x])
 Revealed(s, S) == [s EXCEPT !.mask = [x \in Pos(s) |-> s.mask[x] \/ x \in RevealSel(s, S)]]
 
+\* every logged request also says which plate NAMES the ids stand for (and whether some id names no plate), so that a history can be
+\* replayed on objects that number their plates differently
+NamesOf(s, S) == SetToSortSeq({s.pl[x] : x \in {y \in Pos(s) : s.pid[y] \in S}}, <)
+HasUnknown(s, S) == \E i \in S : i < 0 \/ i >= NPlates(s)
+NameOf(s, a) == s.pl[CHOOSE x \in Pos(s) : s.pid[x] = a]
 Reveal(h, S) ==
     /\ scr[h].live /\ S \in SUBSET (-1..NPlates(scr[h]))         \* ids -1 and NPlates: unknown plate ids
     /\ IF RevealRefuses(scr[h], S)
-       THEN /\ UNCHANGED <<scr, files>> /\ Log([op |-> "reveal", h |-> h, S |-> SetToSortSeq(S, <), refused |-> TRUE])
+       THEN /\ UNCHANGED <<scr, files>>
+            /\ Log([op |-> "reveal", h |-> h, S |-> SetToSortSeq(S, <), refused |-> TRUE, Sn |-> NamesOf(scr[h], S), unk |-> HasUnknown(scr[h], S)])
        ELSE /\ scr' = [scr EXCEPT ![h] = Revealed(scr[h], S)]
-            /\ Log([op |-> "reveal", h |-> h, S |-> SetToSortSeq(S, <), refused |-> FALSE])
+            /\ Log([op |-> "reveal", h |-> h, S |-> SetToSortSeq(S, <), refused |-> FALSE, Sn |-> NamesOf(scr[h], S), unk |-> HasUnknown(scr[h], S)])
             /\ UNCHANGED files
 
 Mask(h) == /\ scr[h].live
@@ -143,7 +149,7 @@ SetObserved(h, P) ==
     /\ LET sel == {x \in Pos(scr[h]) : PlateIds(scr[h])[x] \in P} IN
        scr' = [scr EXCEPT ![h] = [scr[h] EXCEPT !.mask = [x \in Pos(scr[h]) |-> scr[h].mask[x] \/ x \in sel],
                                                  !.val = [x \in Pos(scr[h]) |-> IF x \in sel THEN Fix.newval + x ELSE scr[h].val[x]]]]
-    /\ Log([op |-> "set_observed", h |-> h, P |-> SetToSortSeq(P, <)]) /\ UNCHANGED files
+    /\ Log([op |-> "set_observed", h |-> h, P |-> SetToSortSeq(P, <), Pn |-> NamesOf(scr[h], P)]) /\ UNCHANGED files
 
 \* Plate.merge (used by the merge smoothers): plates a and b become one plate IN PLACE, plate ids are re-derived
 MergePlates(h, a, b) ==
@@ -156,7 +162,7 @@ MergePlates(h, a, b) ==
            pp == [x \in Pos(s) |-> IF x \in both THEN name ELSE s.pl[x]]
            pe == Encode1(pp) IN
        scr' = [scr EXCEPT ![h] = [s EXCEPT !.pl = pp, !.pid = pe.ids, !.npl = Len(pe.mapping)]]
-    /\ Log([op |-> "merge", h |-> h, a |-> a, b |-> b]) /\ UNCHANGED files
+    /\ Log([op |-> "merge", h |-> h, a |-> a, b |-> b, an |-> NameOf(scr[h], a), bn |-> NameOf(scr[h], b)]) /\ UNCHANGED files
 
 (* ---------------- persistence ---------------- *)
 Save(h, p) == /\ scr[h].live /\ files' = [files EXCEPT ![p] = scr[h]]
@@ -166,9 +172,11 @@ Load(p, h) == /\ files[p].live /\ scr' = [scr EXCEPT ![h] = files[p]]
 CliReveal(p, q, S) ==
     /\ files[p].live /\ S \in SUBSET (-1..NPlates(files[p])) /\ S # {}
     /\ IF RevealRefuses(files[p], S)
-       THEN UNCHANGED files /\ Log([op |-> "cli_reveal", p |-> p, q |-> q, S |-> SetToSortSeq(S, <), refused |-> TRUE])
+       THEN UNCHANGED files /\ Log([op |-> "cli_reveal", p |-> p, q |-> q, S |-> SetToSortSeq(S, <), refused |-> TRUE,
+                                     Sn |-> NamesOf(files[p], S), unk |-> HasUnknown(files[p], S)])
        ELSE files' = [files EXCEPT ![q] = Revealed(files[p], S)]
-            /\ Log([op |-> "cli_reveal", p |-> p, q |-> q, S |-> SetToSortSeq(S, <), refused |-> FALSE])
+            /\ Log([op |-> "cli_reveal", p |-> p, q |-> q, S |-> SetToSortSeq(S, <), refused |-> FALSE,
+                     Sn |-> NamesOf(files[p], S), unk |-> HasUnknown(files[p], S)])
     /\ UNCHANGED scr
 CliMeta(p) == /\ files[p].live /\ UNCHANGED <<scr, files>> /\ Log([op |-> "cli_meta", p |-> p])
 
